@@ -50,7 +50,17 @@ def gen(rng, tier, i):
             for _ in range(rng.randint(1, 3)):
                 L.append('t %d wakeup' % w)
                 if rng.random() < 0.5: L.append('t %d sleep %d' % (w, rng.choice((1, 200))))
-        for _ in range(rng.randint(2, 6)):
+        nw = rng.randint(2, 6)
+        if rng.random() < 0.5:
+            # a socket in the same event set: its readiness events and the posted completions come out of the same waits,
+            # into the same slots of the backend's event array
+            L.insert(0, 't 0 sockadd')
+            w = nprod + 2
+            for _ in range(rng.randint(1, 4)):
+                L.append('t %d ready' % w)
+                L.append('t %d sleep %d' % (w, rng.choice((1, 50, 300, 3000))))
+            nw += 3
+        for _ in range(nw):
             L.append('t 0 wait %d %d' % (rng.choice((0, 1, 20, 20, 500, 10000)), rng.choice((1, 2, 16, 16))))
         for _ in range(3): L.append('t 0 wait 200 16')
     elif cls == 'queue':
@@ -160,6 +170,20 @@ def check(plan, res):
                 for x in w[4:]:
                     if ':' in x:
                         k, d = x.split(':'); got.append((int(k), int(d)))
+        # a readiness event of the socket is no completion: it carries no key and no data of one
+        for y, t, th, r in E:
+            w = r.split(' ')
+            if w[0] == 'wait':
+                bad = [x for x in w[4:] if x.startswith('io=') and x != 'io=0=0']
+                if bad:
+                    v.append(Violation(PROP, 'merged', 'the readiness event of a socket was delivered with completion key and data %s (posted completions: %s)' % (bad[0][3:].replace('=', '/'), posted), PROP + '/completion/merged-with-io-event')); break
+        # ... and readiness is not lost either: a wait called after the socket became readable reports it
+        lr = max([i for i, (y, t, th, r) in enumerate(E) if r == 'ready'] or [-1])
+        if lr >= 0 and any(r.startswith('sockadd ret=0') for y, t, th, r in E):
+            later_calls = [i for i, (y, t, th, r) in enumerate(E) if r.startswith('wait_call') and i > lr]
+            later_io = [i for i, (y, t, th, r) in enumerate(E) if r.startswith('wait ') and i > lr and ' io=' in r]
+            if len(later_calls) >= 2 and not later_io:
+                v.append(Violation(PROP, 'lost', 'the socket became readable, %d waits were called afterwards and none reported it' % len(later_calls), PROP + '/io/readiness-lost'))
         keys = set(k for k, d in posted)
         # "none missing once producers are done and the loop has waited once more": judged only if a wait is
         # called after the last post has returned
